@@ -216,8 +216,12 @@ pub fn block_ranges(inner: &[u8]) -> Vec<(usize, usize, u8)> {
     while o < inner.len() {
         let t = inner[o];
         let end = match t {
-            0x00 => { if o + 17 > inner.len() { break; } let l = u64::from_le_bytes(inner[o + 9..o + 17].try_into().unwrap()) as usize; o + 17 + l }
-            0x01 => { if o + 17 > inner.len() { break; } let l = u64::from_le_bytes(inner[o + 9..o + 17].try_into().unwrap()) as usize; o + 17 + l }
+            0x00 | 0x01 => {
+                if o + 17 > inner.len() { break; }
+                let l = u64::from_le_bytes(inner[o + 9..o + 17].try_into().unwrap());
+                if l > (inner.len() - o - 17) as u64 { break; }
+                o + 17 + l as usize
+            }
             0xFF => o + 41,
             0xFE => { v.push((o, o + 1, t)); break; }
             _ => break,
